@@ -1520,6 +1520,12 @@ def units(tier, seed):
                                  params=dict(k=5, op='get_grad', fixed=fixed, **kw), setup=_setup,
                                  min_obligations=81 * 5, expect_paths=81, timeout_s=1500, maxpaths=4000))
 
+    if not thorough:
+        # 4 and 5 parameters in the quick tier: one regime each (all central / mixed), single path
+        for k, fixed in ((4, 'cccc'), (5, 'ccccc'), (4, 'ztcc'), (5, 'cztcc')):
+            us.append(H.Unit('hess-k%d-%s' % (k, fixed), hess_body(k, fixed=tuple(fixed)),
+                             params=dict(k=k, op='get_hess', fixed=fixed), setup=_setup, min_obligations=k * k,
+                             expect_paths=1, timeout_s=900, maxpaths=64))
     # ---------------- part 2: linear Poisson models
     def U(name, body, params, generic=True, **kw):
         kw.setdefault('timeout_s', 900)
